@@ -658,7 +658,7 @@ class SQLitePool(Pool):
         pool.filename = filename
         pool.create_db = create_db
         pool.kwargs = kwargs
-        pool.con = None
+        pool.con = pool.pid = None
     def _connect(pool):
         filename = pool.filename
         if pool.is_shared_memory_db or pool.filename == ':memory:':
